@@ -636,6 +636,10 @@ class Context:
                 if not application.processes:
                     application.state = ApplicationStates.DELETED
                     del self.applications[application.application_name]
+                else:
+                    # the state of the remaining processes may have changed with the entries removed,
+                    # so the application state and operational status have to be evaluated again
+                    application.update()
                 # send an application status when impacted
                 if application_impacted and self.external_publisher:
                     self.external_publisher.send_application_status(application.serial())
